@@ -5,6 +5,7 @@
 //!   rce_sim replay <file>
 //!   rce_sim shrink <prop> <base_seed> <index> <quick|thorough> <out_file>
 //!   rce_sim show <prop> <base_seed> <index> <quick|thorough>
+//!   rce_sim direct <base_seed> <first> <count>      (C16: same-thread repeated direct calls)
 
 pub mod gen;
 pub mod json;
@@ -212,7 +213,8 @@ fn cmd_run(args: &[String]) {
             inter.push(r.switch_hash);
         }
         // Periodic self-check: the explicit (PRNG-free) plan must reproduce the run exactly.
-        if index % 64 == 0 && prop != "C16" {
+        let huge = plans.iter().any(|p| p.params.b("grown_cache"));
+        if index % 64 == 0 && prop != "C16" && !huge {
             // (C16's own oracle is exactly this comparison; a mismatch there is a verdict, not a harness fault)
             let recs2 = run_case(&expl);
             for (a, b) in recs.iter().zip(&recs2) {
@@ -523,6 +525,92 @@ fn cmd_show(args: &[String]) {
     println!("STATS {}", out.stats.to_json().to_string());
 }
 
+/// C16, "repeated runs in one process": the searches are called directly, one after another
+/// ON ONE THREAD (no simulator, no UCI loop - a UCI session gives every `go` a thread of its
+/// own, so state a thread keeps for itself is invisible there), the way bench and any test
+/// harness call them. Each case: search (position, depth) from an empty cache; run some other
+/// searches; empty the cache the way bench does; search (position, depth) again. The driver
+/// compares everything the two searches printed, and their node counts.
+fn cmd_direct(args: &[String]) {
+    use crate::board::transposition_table::TRANSPOSITION_TABLE;
+    use crate::board::Board;
+    use crate::evaluate::simple_evaluator::SimpleEvaluator;
+    use crate::search::{Depth, Search};
+    let base: u64 = args[2].parse().expect("base seed");
+    let first: u64 = args[3].parse().expect("first");
+    let count: u64 = args[4].parse().expect("count");
+    let clear = || {
+        TRANSPOSITION_TABLE.write().expect("table").clear();
+    };
+    let run = |fen: &str, d: u8| -> u64 {
+        let mut s = Search::new(&Board::from_fen(fen), None);
+        s.search(&SimpleEvaluator, Some(d as Depth));
+        let _ = std::io::stdout().flush();
+        s.get_nodes() as u64
+    };
+    let pick_pos = |rng: &mut rng::Rng| -> refmodel::Pos {
+        loop {
+            let p = match rng.below(4) {
+                0 => refmodel::Pos::from_fen(rng.pick(gen::BENCH_FENS)).unwrap(),
+                1 => refmodel::Pos::from_fen(rng.pick(gen::CURATED)).unwrap(),
+                2 => gen::sparse_position(rng),
+                _ => {
+                    let n = rng.below(60) as usize;
+                    let (_, ps) = refmodel::playout(&refmodel::Pos::start(), n, rng, true);
+                    ps.last().unwrap().clone()
+                }
+            };
+            if !p.legal_moves().is_empty() {
+                return p;
+            }
+        }
+    };
+    for k in first..first + count {
+        let mut rng = rng::Rng::new(case_seed(base, "C16-direct", k));
+        let pos = pick_pos(&mut rng);
+        let fen = pos.to_fen();
+        let maxd = if pos.piece_count() > 20 { 4 } else { 5 };
+        let d = rng.range(1, maxd + 1) as u8;
+        // what runs in between
+        let mut between: Vec<(String, u8)> = vec![];
+        for _ in 0..rng.range(1, 4) {
+            match rng.below(5) {
+                0 => between.push((fen.clone(), 1)),
+                1 => between.push((fen.clone(), d.saturating_sub(1).max(1))),
+                2 => between.push((fen.clone(), d)),
+                3 => {
+                    // a position one or two moves on (the next moves of the same game)
+                    let (_, ps) = refmodel::playout(&pos, rng.range(1, 3) as usize, &mut rng, false);
+                    let q = ps.last().unwrap();
+                    if !q.legal_moves().is_empty() {
+                        between.push((q.to_fen(), rng.range(1, 4) as u8));
+                    }
+                }
+                _ => between.push((pick_pos(&mut rng).to_fen(), rng.range(1, 4) as u8)),
+            }
+        }
+        let clear_between = rng.chance(1, 2);
+        println!("@@CASE {k} depth={d} fen={fen}");
+        clear();
+        println!("@@A");
+        let na = run(&fen, d);
+        println!("@@NODES {na}");
+        println!("@@BETWEEN");
+        for (f, bd) in &between {
+            if clear_between {
+                clear();
+            }
+            println!("@@SEARCH depth={bd} fen={f}");
+            run(f, *bd);
+        }
+        clear();
+        println!("@@B");
+        let nb = run(&fen, d);
+        println!("@@NODES {nb}");
+        println!("@@END");
+    }
+}
+
 pub fn main() {
     let args: Vec<String> = std::env::args().collect();
     let cmd = args.get(1).map(String::as_str).unwrap_or("");
@@ -550,6 +638,7 @@ pub fn main() {
         "shrink" => cmd_shrink(&args),
         "show" => cmd_show(&args),
         "script" => cmd_script(&args),
+        "direct" => cmd_direct(&args),
         _ => {
             eprintln!("usage: rce_sim selftest|run|hashes|replay|shrink|show ...");
             std::process::exit(2);
